@@ -13,6 +13,18 @@ CLAIMED = {
  'C02': dict(cat='proof', tech='abstract interpretation of MIR: per-plane store summaries, exact integer-wrapper table, affine forms with a-priori rounding bounds',
    text='The encode entry point is interpreted per configuration with the RGB pixel abstract; the integer wrapper around the rounding step is shown to be exactly r -> clamp(r,0,2^n-1) on every reachable r, and sup|v-v*| of the pre-rounding affine form over [-0.5,1.5]^3 is bounded below 1e-6*2^n, which implies the stated |code-clamp(ideal)| <= 0.5+1e-6*2^n for every pixel.',
    ref='3/C02', note='Finite pixel components in [-0.5,1.5] (the property\'s quantifier); A-geom. ' + TB),
+ 'C07': dict(cat='proof', tech='unsafe-operation inventory from MIR; Positivstellensatz certificates (LP, exactly re-verified) for index obligations; interval/NaN-flag analysis; API-surface rule',
+   text='Every unsafe operation reachable from a public conversion (found by interpreting the entry points on MIR, cross-checked against the HIR unsafe blocks) gets a proof obligation: idx < len for each unchecked slice access under only the facts the public constructors establish, with symbolic geometry, stride, padding and every subsampling in 0..=2; validity of each from_raw_parts_mut; finiteness/range of the argument of to_int_unchecked for arbitrary float bits. A discharged obligation is a proof for all geometries (below 2^28) at once; refutations carry a concrete witness.',
+   ref='3/C07', note='A-geom (dimensions, strides, lengths < 2^28; usize wrap-around beyond that is outside the stated quantifier). ' + TB),
+ 'C12': dict(cat='proof', tech='abstract interpretation of MIR with symbolic geometry (exact constructor decision trees) + exhaustive vectorised comparison of the extracted predicate with the documented table',
+   text='The constructors are interpreted with all geometry symbolic; the resulting (path condition -> Ok|Err(v)) list is the exact decision function. It is compared with the documented accept/reject table on the whole finite domain of the property (luma 1..12, chroma sizes 0..13, decimations 0..3, subsampling 0..2, sample flags; (len,w,h) in 0..=40), exhaustively; acceptance conjuncts are shown plane-wise independent so the plane-wise sweeps cover the product domain. Verbatim storage and accessors are checked by value identity.',
+   ref='3/C12', note='Sweep-domain plane buffers are laid out as v_frame 0.3.9 Plane::new lays them out; the exists-predicate of the Plane::iter/any model ranges over the visible samples. ' + TB),
+ 'C14': dict(cat='proof', tech='abstract interpretation of MIR over the finite metadata space (pixel data and geometry abstract), exhaustive enumeration of 3276 triples x conversions',
+   text='Every conversion entry point is interpreted for every fully specified (matrix, primaries, transfer) triple with pixels and geometry abstract, so the outcome Ok/Err(variant)/panic is exact for that triple; the contract (errors name an offending field, symmetric support, same error for single-stage pairs, standard sets succeed, YUV<->RGB kernels independent of unused metadata by expression identity) is checked on the complete table.',
+   ref='3/C14', note='Single-stage same-error clause read at stage level (DESIGN.md C14 note). Panics conditional on pixel data/geometry are decided by C13/C07. ' + TB),
+ 'C15': dict(cat='proof', tech='abstract interpretation of MIR: symbolic width/height decision trees vs the documented heuristic on the threshold grid; kernel identity between Unspecified and explicitly labelled requests',
+   text='Constructors are interpreted with width/height symbolic: the forks give the exact decision tree, compared with the documented mpv heuristic on every cell of the grid of all thresholds (exhaustive since both are piecewise constant). For every conversion into Yuv/Rgb and every subset of Unspecified fields the resolved per-pixel kernel must be the same expression as the kernel obtained by requesting the output label explicitly.',
+   ref='3/C15', note=TB),
 }
 NA_REASON = {}
 
